@@ -5,6 +5,9 @@ import (
 	"fmt"
 	"os"
 	"sort"
+
+	"verif/internal/enum"
+	"verif/internal/ev"
 )
 
 // A Replayer re-executes ONE recorded execution (scenario + choice sequence / operation list from a replay file)
@@ -24,15 +27,20 @@ func Replay(file string) int {
 	}
 	var rec struct {
 		Property string         `json:"property"`
+		Tier     string         `json:"tier"`
 		Sig      string         `json:"sig"`
 		Msg      string         `json:"msg"`
 		Detail   map[string]any `json:"detail"`
+		Case     *ev.CaseRef    `json:"case"`
 	}
 	if err := json.Unmarshal(raw, &rec); err != nil {
 		fmt.Fprintln(os.Stderr, err)
 		return 2
 	}
 	f, ok := Replayers[rec.Property]
+	if !ok && rec.Case != nil {
+		f, ok = caseReplayer(rec.Property, rec.Tier, *rec.Case), true
+	}
 	if !ok {
 		ids := []string{}
 		for id := range Replayers {
@@ -50,8 +58,53 @@ func Replay(file string) int {
 			return 1
 		}
 	}
+	if _, specific := Replayers[rec.Property]; specific && rec.Case != nil {
+		// the check-specific replayer did not apply to this record (a violation from an enumeration part of the check)
+		for _, s := range caseReplayer(rec.Property, rec.Tier, *rec.Case)(rec.Detail) {
+			if s == rec.Sig {
+				fmt.Printf("REPRODUCED property=%s sig=%q\n", rec.Property, rec.Sig)
+				return 1
+			}
+		}
+	}
 	fmt.Printf("NOT REPRODUCED property=%s (re-found: %q)\n", rec.Property, sigs)
 	return 0
+}
+
+// caseReplayer is the generic replayer of the enumeration checks: the check is run again in this one process, with
+// every enumeration restricted to the recorded case (part = which enumeration of the check, index = which case in it).
+// Nothing is written to evidence/ or replays/.
+func caseReplayer(id, tier string, c ev.CaseRef) Replayer {
+	return func(map[string]any) []string {
+		chk, ok := Registry[id]
+		if !ok {
+			fmt.Fprintf(os.Stderr, "unknown check %s\n", id)
+			return nil
+		}
+		if tier != "thorough" {
+			tier = "quick"
+		}
+		os.Setenv("VERIF_INPROC", "1")
+		r := ev.New(id, tier, chk.Level)
+		enum.Only(&c)
+		defer enum.Only(nil)
+		fmt.Printf("re-running %s (%s) enumeration #%d, case %d only\n", id, tier, c.Part, c.Index)
+		// Go map iteration order inside the code under test (candidate ties, domain choice) is not owned by the harness:
+		// a case whose verdict depends on it is re-run a few times
+		var sigs []string
+		for attempt := 1; attempt <= 10 && len(sigs) == 0; attempt++ {
+			enum.Only(&c)
+			chk.Run(r)
+			sigs = r.ViolationSigs()
+			if len(sigs) > 0 && attempt > 1 {
+				fmt.Printf("  (violated on attempt %d: the verdict of this case depends on map iteration order in the code under test)\n", attempt)
+			}
+		}
+		for _, s := range sigs {
+			fmt.Printf("  violation: %s\n    %s\n", s, r.ViolationMsg(s))
+		}
+		return sigs
+	}
 }
 
 func intList(v any) []int {
